@@ -96,7 +96,10 @@ def apply_ops(run, spec, ops, case, tag):
                 if not model.validate(a, len(vals)):
                     continue
                 mine = list(vals)
-                real.setValues(a, mine)
+                if len(mine) == 1 and ((i + a) % 3 == 0 or not mine[0]):
+                    real.setValues(a, mine[0])          # a single value may be given bare (not wrapped in a list)
+                else:
+                    real.setValues(a, mine)
                 model.set(a, vals)
                 # the list handed to setValues stays the caller's: reusing it afterwards (as a buffer) must not reach into the block
                 for j in range(len(mine)):
@@ -212,6 +215,8 @@ def random_ops(r, spec, n, with_reset):
             for _ in range(c):
                 uniq[0] += 1
                 vals.append(uniq[0] % 65536)
+            if c == 1 and r.random() < 0.35:
+                vals = [r.choice([0, False])]          # zero / OFF are values like any other (also when given as a bare scalar)
             ops.append(('set', a, vals))
         else:
             ops.append(('reset',))
@@ -236,7 +241,20 @@ def slave_context_case(run, case):
     blocks, models = {}, {}
     for t in 'dcih':
         blocks[t], models[t] = make_block(layout[t])
-    ctx = ModbusSlaveContext(di=blocks['d'], co=blocks['c'], ir=blocks['i'], hr=blocks['h'], zero_mode=zero)
+    from pymodbus.constants import Defaults
+    old_default = Defaults.ZeroMode
+    how = case.get('config', 'keyword')
+    try:
+        if how == 'default-only':
+            Defaults.ZeroMode = zero            # the process-wide default alone decides
+            ctx = ModbusSlaveContext(di=blocks['d'], co=blocks['c'], ir=blocks['i'], hr=blocks['h'])
+        elif how == 'keyword-against-default':
+            Defaults.ZeroMode = not zero        # the explicit keyword has to win over an opposite process-wide default
+            ctx = ModbusSlaveContext(di=blocks['d'], co=blocks['c'], ir=blocks['i'], hr=blocks['h'], zero_mode=zero)
+        else:
+            ctx = ModbusSlaveContext(di=blocks['d'], co=blocks['c'], ir=blocks['i'], hr=blocks['h'], zero_mode=zero)
+    finally:
+        Defaults.ZeroMode = old_default
     off = 0 if zero else 1
     for i, op in enumerate(ops):
         kind, fx, a = op[0], op[1], op[2]
@@ -307,7 +325,7 @@ def slave_contexts(run, r):
             else:
                 uniq += c
                 ops.append(('set', fx, a, [(uniq + j) % 65536 for j in range(c)]))
-        case = {'kind': 'slave', 'zero_mode': zero, 'layout': layout, 'ops': ops}
+        case = {'kind': 'slave', 'zero_mode': zero, 'layout': layout, 'ops': ops, 'config': ('keyword', 'keyword', 'default-only', 'keyword-against-default')[(i // 2) % 4]}
         ok = slave_context_case(run, case)
         run.case(h64(repr(case)), True, sample={'kind': 'slave', 'zero_mode': zero, 'ops': ops[:5], 'verdict': 'held' if ok else 'differs'},
                  sample_class=('slave', zero))
